@@ -875,3 +875,20 @@ func Unsupported(msg string) {
 func CloseCh[T any](site int32, ch chan<- T) {
 	close(CL(site, ch))
 }
+
+// PendKind names the gate the task is parked at ("exited" when it has finished).
+func (t *Task) PendKind() string {
+	if t.state == tsExited {
+		return "exited"
+	}
+	return gateNames[t.pend.kind]
+}
+
+// PendSite is the site id of the gate the task is parked at.
+func (t *Task) PendSite() int32 { return t.pend.site }
+
+// Exited reports whether the task has finished.
+func (t *Task) Exited() bool { return t.state == tsExited }
+
+// EnabledCount returns how many tasks were enabled at the last decision.
+func (s *Sim) EnabledCount() int { return len(s.enabled) }
